@@ -371,6 +371,9 @@ impl SimDisk {
         s.unsynced = Vec::new();
         s.capture = None;
         s.dead = true;
+        // the backing file is unlinked by now but stays open as long as the run's device registry
+        // holds this object: give its pages back (thousands of images per run in the thorough tier)
+        let _ = self.file.set_len(0);
     }
 
     pub fn log(&self) -> Vec<DevEvent> {
